@@ -138,3 +138,7 @@ func zzBlobFstat(fd int, st *syscall.Stat_t) error {
 	st.Size = int64(f.blocks) * 4096
 	return nil
 }
+
+// sparse.AllocateAligned: a zeroed buffer of the requested size (its alignment for
+// O_DIRECT is not observable in the model)
+func zzAllocateAligned(size int) []byte { return make([]byte, size) }
